@@ -57,6 +57,7 @@ def caller_arrays():
         'dates': np.array(['2020-01-01', '2020-01-02', '2020-02-01'], dtype='datetime64[D]'),
         '2d': np.arange(6).reshape(3, 2),
         'bool': np.array([True, False, True]),
+        'struct': np.array([(1, 1.5, 'u'), (2, 2.5, 'v'), (3, 3.5, 'w')], dtype=[('x', 'i8'), ('y', 'f8'), ('z', '<U1')]),
     }
 
 
@@ -97,6 +98,12 @@ def build_seed(name, A):
         return sf.Frame.from_items(((('u', 1), A['i8']), (('u', 2), A['f8'])), index=A['lab'], columns_constructor=sf.IndexHierarchy.from_labels, name='f')
     if name == 'Frame-zero-rows':
         return sf.Frame.from_items((('p', A['i8'][:0]), ('q', A['f8'][:0])), name='f')
+    if name == 'Frame-from-structured-array':
+        return sf.Frame.from_structured_array(A['struct'], name='f')
+    if name == 'Frame-from-structured-array-index':
+        return sf.Frame.from_structured_array(A['struct'], index_depth=1, name='f')
+    if name == 'Frame-from-2d-as-structured':
+        return sf.Frame.from_structured_array(A['2d'], name='f', store_filter=None)
     if name == 'Frame-from-records':
         return sf.Frame.from_records([A['i8'], A['i8b']], columns=A['lab'], name='f')
     if name == 'Frame-from-concat':
@@ -180,7 +187,7 @@ GO_SEEDS = {'IndexHierarchy.from_product(IndexGO)': _go_product, 'Series(index=I
             'IndexHierarchy(IndexHierarchyGO)': _go_hier, 'FrameGO.rename().to_frame()': _go_frame_rename}
 
 
-SEEDS_QUICK = ['Index', 'IndexDate', 'IndexHierarchy', 'IndexHierarchy-depth3', 'Series-hier3', 'Frame-hier3-index', 'Series-float', 'Series-object', 'SeriesHE', 'Frame-mixed-1d', 'Frame-2d-block', 'FrameHE', 'Frame-zero-rows',
+SEEDS_QUICK = ['Frame-from-structured-array', 'Frame-from-structured-array-index', 'Frame-from-2d-as-structured', 'Index', 'IndexDate', 'IndexHierarchy', 'IndexHierarchy-depth3', 'Series-hier3', 'Frame-hier3-index', 'Series-float', 'Series-object', 'SeriesHE', 'Frame-mixed-1d', 'Frame-2d-block', 'FrameHE', 'Frame-zero-rows',
                'Series-1030-labels'] + list(GO_SEEDS)
 SEEDS_ALL = SEEDS_QUICK + ['IndexGO->static', 'IndexHierarchy-from-arrays', 'Series-hier', 'Frame-typeblocks', 'Frame-hier-columns', 'Frame-from-records', 'Frame-from-concat']
 DEPTH2_QUICK = {'Series-float', 'Frame-mixed-1d', 'IndexHierarchy'}
@@ -523,6 +530,9 @@ def run_case(case, ctx):
             a[...] = np.datetime64('1999-09-09')
         elif a.dtype.kind == 'b':
             a[...] = False
+        elif a.dtype.kind == 'V':
+            for fld in a.dtype.names:
+                a[fld][...] = 77 if a.dtype[fld].kind in 'iuf' else 'W'
     ctx.transition()
     if snap(seed) != s0:
         ctx.violation(f'{seed_name}|caller-write-visible-through-container', **info0)
